@@ -708,13 +708,94 @@ func checkRunUntil(ctx *Ctx) {
 		}
 		return nil
 	}
+	// a parameter captured by a closure lives in a cell that is stored once: a load of that cell is the parameter
+	spillOf := func(a *ssa.Alloc) ssa.Value {
+		var stored []ssa.Value
+		for _, r := range *a.Referrers() {
+			if st, ok := r.(*ssa.Store); ok && st.Addr == ssa.Value(a) {
+				stored = append(stored, st.Val)
+			}
+		}
+		if len(stored) == 1 {
+			return stored[0]
+		}
+		return nil
+	}
+	isTarget := func(v ssa.Value) bool {
+		if v == ssa.Value(target) {
+			return true
+		}
+		if u, ok := v.(*ssa.UnOp); ok && u.Op == token.MUL {
+			if a, ok := u.X.(*ssa.Alloc); ok && spillOf(a) == ssa.Value(target) {
+				return true
+			}
+		}
+		return false
+	}
+	// targetClosure: a function literal `func() bool { return s.GetPC() == targetPC }` made in RunUntil
+	targetClosure := func(v ssa.Value) bool {
+		mc, ok := v.(*ssa.MakeClosure)
+		if !ok {
+			return false
+		}
+		g, ok := mc.Fn.(*ssa.Function)
+		if !ok || len(g.Blocks) != 1 || len(g.Params) != 0 {
+			return false
+		}
+		ret, ok := g.Blocks[0].Instrs[len(g.Blocks[0].Instrs)-1].(*ssa.Return)
+		if !ok || len(ret.Results) != 1 {
+			return false
+		}
+		bo, ok := ret.Results[0].(*ssa.BinOp)
+		if !ok || bo.Op != token.EQL {
+			return false
+		}
+		boundTo := func(v ssa.Value) ssa.Value { // what the free variable loaded by v was bound to
+			u, ok := v.(*ssa.UnOp)
+			if !ok || u.Op != token.MUL {
+				return nil
+			}
+			for i, fv := range g.FreeVars {
+				if u.X == ssa.Value(fv) && i < len(mc.Bindings) {
+					if a, ok := mc.Bindings[i].(*ssa.Alloc); ok {
+						return spillOf(a)
+					}
+				}
+			}
+			return nil
+		}
+		for _, pair := range [][2]ssa.Value{{bo.X, bo.Y}, {bo.Y, bo.X}} {
+			c, ok := pair[0].(*ssa.Call)
+			if !ok || c.Call.StaticCallee() == nil || !isGetPC(c.Call.StaticCallee()) || len(c.Call.Args) != 1 {
+				continue
+			}
+			if boundTo(c.Call.Args[0]) == ssa.Value(fn.Params[0]) && boundTo(pair[1]) == ssa.Value(target) {
+				// nothing else happens in the closure
+				for _, in := range g.Blocks[0].Instrs {
+					switch in.(type) {
+					case *ssa.Store, *ssa.MapUpdate, *ssa.Send, *ssa.Go, *ssa.Defer, *ssa.Panic:
+						return false
+					case *ssa.Call:
+						if in != ssa.Instruction(c) {
+							return false
+						}
+					}
+				}
+				return true
+			}
+		}
+		return false
+	}
 	isTargetEq := func(atom ssa.Value) *ssa.Call {
+		if c, ok := atom.(*ssa.Call); ok && targetClosure(c.Call.Value) {
+			return c // the comparison is made by the call itself
+		}
 		bo, ok := atom.(*ssa.BinOp)
 		if !ok || (bo.Op != token.EQL && bo.Op != token.NEQ) {
 			return nil
 		}
 		for _, pair := range [][2]ssa.Value{{bo.X, bo.Y}, {bo.Y, bo.X}} {
-			if c, ok := pair[0].(*ssa.Call); ok && pair[1] == target && c.Call.StaticCallee() != nil && isGetPC(c.Call.StaticCallee()) {
+			if c, ok := pair[0].(*ssa.Call); ok && isTarget(pair[1]) && c.Call.StaticCallee() != nil && isGetPC(c.Call.StaticCallee()) {
 				return c
 			}
 		}
@@ -749,7 +830,7 @@ func checkRunUntil(ctx *Ctx) {
 		for a, v := range p.facts {
 			if cl := isTargetEq(a); cl != nil {
 				eq := v
-				if a.(*ssa.BinOp).Op == token.NEQ {
+				if bo, isB := a.(*ssa.BinOp); isB && bo.Op == token.NEQ {
 					eq = !v
 				}
 				if !eq && onPath(p.blocks, cl.Block()) {
@@ -902,9 +983,12 @@ func checkRunUntil(ctx *Ctx) {
 		}
 		good := false
 		if len(ret.Results) == 1 {
+			if c, ok := ret.Results[0].(*ssa.Call); ok && targetClosure(c.Call.Value) && !L.Body[c.Block()] {
+				good = !reaches(c.Block(), step.Block(), nil)
+			}
 			if bo, ok := ret.Results[0].(*ssa.BinOp); ok && bo.Op == token.EQL {
 				for _, pair := range [][2]ssa.Value{{bo.X, bo.Y}, {bo.Y, bo.X}} {
-					if c, ok := pair[0].(*ssa.Call); ok && pair[1] == target && c.Call.StaticCallee() != nil && isGetPC(c.Call.StaticCallee()) && !L.Body[c.Block()] {
+					if c, ok := pair[0].(*ssa.Call); ok && isTarget(pair[1]) && c.Call.StaticCallee() != nil && isGetPC(c.Call.StaticCallee()) && !L.Body[c.Block()] {
 						// no Step can follow the final read of the PC
 						good = !reaches(c.Block(), step.Block(), nil)
 					}
